@@ -246,7 +246,13 @@ impl From<&str> for Val {
             }
             _ => {}
         };
-        if let Ok(num) = s.parse::<f64>() {
+        // the float parser also accepts "inf", "infinity" and "nan", which are not BASIC numbers
+        let numeric = s
+            .chars()
+            .all(|c| c.is_ascii_digit() || matches!(c, '+' | '-' | '.' | 'e' | 'E'));
+        if !numeric {
+            Val::String(string.into())
+        } else if let Ok(num) = s.parse::<f64>() {
             Val::Double(num)
         } else {
             Val::String(string.into())
